@@ -413,6 +413,75 @@ func checkC15(job *Job, res *Result) {
 				res.Violate("C15/hang-or-crash:leaderauth", x.Err+" ["+fa.name+"]", nil)
 			}
 		}
+		// ---- the password outlives restarts: three lives of one data directory
+		for _, org := range []struct {
+			name, cfg string
+			cmds      [][]string
+		}{
+			{"config file", `{"requirepass":"pw"}`, nil},
+			{"config file with other settings", `{"requirepass":"pw","leaderauth":"la","protected-mode":"no","keepalive":"300"}`, nil},
+			{"config set + rewrite", ``, [][]string{{"CONFIG", "SET", "requirepass", "pw"}, {"AUTH", "pw"}, {"CONFIG", "REWRITE"}}},
+			{"config set + rewrite over a file", `{"requirepass":"old"}`, [][]string{{"AUTH", "old"}, {"CONFIG", "SET", "requirepass", "pw"}, {"AUTH", "pw"}, {"CONFIG", "REWRITE"}}},
+		} {
+			org := org
+			x := runExec(job, freezeAllBut(), func(x *Exec) {
+				dir := x.dir + "/L"
+				os.MkdirAll(dir, 0700)
+				if org.cfg != "" {
+					os.WriteFile(filepath.Join(dir, "config"), []byte(org.cfg), 0600)
+				}
+				for life := 1; life <= 3; life++ {
+					in := x.Start(fmt.Sprint("L", life), dir, 9000+life, nil)
+					c := x.Dial(in.Addr)
+					it := c15Inst{Cmd: "GET", Wrapper: fmt.Sprintf("%s, start #%d", org.name, life), Args: w("GET k1 id")}
+					if life == 1 {
+						for _, cmd := range org.cmds {
+							if r := c.Do(cmd...); r.IsErr() {
+								viol("password-setup", fmt.Sprintf("%v replied %s", cmd, r), it, "restarts")
+							}
+						}
+						c.Close()
+						c = x.Dial(in.Addr)
+					}
+					before, _ := internalDump(in.S)
+					r1 := c.Do("SET", "k1", "unauth", "POINT", "1", "1")
+					r2 := c.Do("GET", "k1", c15Marker+"id")
+					r3 := c.Do("SCAN", "k1")
+					after, _ := internalDump(in.S)
+					for _, r := range []rv{r1, r2, r3} {
+						if !r.IsErr() || !strings.Contains(r.String(), "uthentication required") {
+							viol("password-lost-after-restart", fmt.Sprintf("an unauthenticated connection got %s", vclip(r.String(), 120)), it, "restarts")
+						}
+					}
+					if before != after {
+						viol("password-lost-after-restart", "an unauthenticated connection changed the dataset", it, "restarts")
+					}
+					if r := c.Do("AUTH", "pw"); r.String() != "+OK" {
+						viol("password-changed-by-restart", fmt.Sprintf("AUTH pw replied %s", r), it, "restarts")
+					}
+					if life == 1 {
+						c.Do("SET", "k1", c15Marker+"id", "POINT", "1", "1")
+					} else if r := c.Do("GET", "k1", c15Marker+"id"); r.IsErr() || r.Null {
+						viol("data-lost-after-restart", fmt.Sprintf("GET after AUTH replied %s", r), it, "restarts")
+					}
+					if org.name == "config file with other settings" {
+						for _, kv := range [][2]string{{"leaderauth", "la"}, {"protected-mode", "no"}, {"keepalive", "300"}} {
+							if r := c.Do("CONFIG", "GET", kv[0]); !strings.Contains(r.String(), kv[1]) {
+								viol("setting-lost-after-restart", fmt.Sprintf("CONFIG GET %s replied %s, the file said %s", kv[0], vclip(r.String(), 80), kv[1]), it, "restarts")
+							}
+						}
+					}
+					c.Close()
+					in.Stop()
+					vsched.Paused[in.Name] = true
+					res.Evaluations++
+					res.DistinctS(fmt.Sprint("restarts", org.name, life))
+				}
+			})
+			if x.Err != "" {
+				res.Violate("C15/hang:restarts", x.Err+" ["+org.name+"]", nil)
+			}
+		}
 		// ---- protected mode decided at run time: the password / protected-mode settings change while the server runs
 		for _, tr := range []struct{ name, cfg string; cmds [][]string; wantDenied bool }{
 			{"password removed", `{"requirepass":"pw"}`, [][]string{{"AUTH", "pw"}, {"CONFIG", "SET", "requirepass", ""}}, true},
